@@ -25,16 +25,24 @@ MANIFEST = {
             "appended 4-byte hash type, the SIGHASH_SINGLE out-of-range constant / zero hashOutputs under each); purity. Constants, masks, format "
             "strings and per-class behaviour are regenerated from the source; the model is tied to the code by differential correspondence on the "
             "five Tx classes, and the implementation is compared with an independent struct/hashlib re-statement of the consensus algorithms on all "
-            "256 hash types.",
+            "256 hash types. The messages handed to generator.verify during Tx.check_solution are observed on signed standard puzzles and on custom "
+            "legacy / P2SH / P2WSH / P2SH-P2WSH scripts whose expected requests are written down from the consensus rules: script code starting "
+            "after the last EXECUTED OP_CODESEPARATOR (before / between / after the checks, in executed vs. unexecuted IF / ELSE branches, several, as "
+            "last opcode, in the scriptSig), signatures pushed on either side of the separator (removed by FindAndDelete in the base version only), "
+            "CHECKMULTISIG with signatures of different hash types, all 256 hash-type bytes on a legacy and a witness script of every class.",
     "note": "SHA-256 is a function symbol in the theorems (digests equal by congruence). Residual known finding truncated-push-short-write: for a "
             "legacy script code whose cut-short last push leaves bytes behind the point where GetScriptOp gave up, Core's SerializeScriptCode announces "
             "the full length but writes fewer bytes; pycoin (after the fix that made delete_subscript/_delete_signature stop at the truncated push) "
             "serialises the whole rest. Such a script can never validate; reproducing the short write would mean bypassing Tx serialisation.",
     "technique": "Lean 4 proof (model = independent spec, prefix-free serialisation) + differential correspondence + reference oracle on the implementation",
 }
-RULE = ("ops c04_sighash / c04_sighash_segwit / c04_sighash_f (+ _spec twins), c04_tmp_tx, c04_preimage_*, c04_delete_subscript, c04_find_and_delete, "
+RULE = ("ops c04_sighash / c04_sighash_segwit / c04_sighash_f (+ _spec twins), c04_sighash_fb (closure with begin_code_hash != 0), c04_tmp_tx, "
+        "c04_preimage_*, c04_delete_subscript, c04_find_and_delete, "
         "c04_script_code_spec, c04_seq, c04_checksol; all 256 hash-type bytes x input position {<,=,>} |vout| x {0,1,2} code separators x {with, without} "
-        "embedded signature push on fixed shapes for the five classes + seeded random transactions + call sequences on one object; distinct = distinct op "
+        "embedded signature push on fixed shapes for the five classes + seeded random transactions + call sequences on one object; c04_checksol: signed "
+        "standard puzzles x six hash types (requests harvested) and custom scripts (harness/props/c04x_gen.py: 18 separator / embedded-signature / "
+        "CHECKMULTISIG families x {bare, P2SH, P2WSH, P2SH-P2WSH} x hash-type assignments, scriptSig separators, 256-byte sweeps; requests written "
+        "down from the consensus rules, compared per message handed to generator.verify); distinct = distinct op "
         "line; trivial = _spec twins (they compare the Lean spec with the Python reference, not the implementation)")
 ASSUMPTIONS = ["hashlib.sha256 is modelled by Model/Sha256.lean (compared on every digest op)",
                "hash types and input indices are non-negative Python ints (negative ones are outside the property and not generated)",
@@ -49,9 +57,9 @@ def E(e):
 class FakeVM:
     """what the closures of _make_sighash_f read from the VM"""
 
-    def __init__(self, script):
+    def __init__(self, script, begin=0):
         self.script = script
-        self.begin_code_hash = 0
+        self.begin_code_hash = begin
 
 
 def parse_sigs(s):
@@ -186,6 +194,14 @@ def impl(op: str) -> str:
             sc = tx.SolutionChecker(tx)
             fn = sc._make_sighash_f(idx) if kind == "legacy" else sc._make_witness_sighash_f(idx)
             return show_call(call_checked(tx, lambda: fn(ht, sigs, FakeVM(script))))
+        if k == "c04_sighash_fb":
+            # the closure with a VM whose begin_code_hash is not 0 (an OP_CODESEPARATOR was executed at begin - 1)
+            coin, kind, f, us, idx, script, begin, sigs, ht = (a[1], a[2], parse_fields(a[3]), parse_us(a[4]), int(a[5]), parse_bytes(a[6]), int(a[7]),
+                                                                parse_sigs(a[8]), int(a[9]))
+            tx = build(coin, f, us)
+            sc = tx.SolutionChecker(tx)
+            fn = sc._make_sighash_f(idx) if kind == "legacy" else sc._make_witness_sighash_f(idx)
+            return show_call(call_checked(tx, lambda: fn(ht, sigs, FakeVM(script, begin))))
         if k == "c04_sighash_f_spec":
             coin, kind, f, us, idx, script, sigs, ht = (a[1], a[2], parse_fields(a[3]), parse_us(a[4]), int(a[5]), parse_bytes(a[6]),
                                                          parse_sigs(a[7]), int(a[8]))
@@ -214,7 +230,12 @@ def impl(op: str) -> str:
             trace, vmap, vals, _outcome = S.observe_checksol(tx, idx)
             if snapshot(tx) != before:
                 return "MUTATED-TX"
-            if show_trace(trace) != a[5] or show_list(vmap) != a[6]:
+            # what is compared: for every message handed to generator.verify, the request (path, hash type, script code, signatures to
+            # remove) it answers -- not how many requests were made (a cache per hash type is the implementation's business)
+            exp_e = [] if a[5] == "~" else a[5].split(",")
+            exp_v = [] if a[6] == "~" else [int(x) for x in a[6].split(",")]
+            got_e = [] if not trace else show_trace(trace).split(",")
+            if [got_e[j] if j >= 0 else "?" for j in vmap] != [exp_e[j] for j in exp_v]:
                 return "err TraceChanged"
             return "ok " + show_list(vals, hex64)
     except Exception as e:  # noqa: BLE001
@@ -275,6 +296,18 @@ def oracle(op: str, out: str):
             return None if out == "err ScriptError" else "a hash type without the fork-id bit is not refused (got %s)" % out[:40]
         if out != want:
             return "the message handed to signature verification differs from the consensus definition (hash type 0x%x, %d signature(s) to remove)" % (ht, len(sigs))
+    if k == "c04_sighash_fb":
+        coin, kind, f, us, idx, script, begin, sigs, ht = (a[1], a[2], parse_fields(a[3]), parse_us(a[4]), int(a[5]), parse_bytes(a[6]), int(a[7]),
+                                                            parse_sigs(a[8]), int(a[9]))
+        need_amount = coin in ("bch", "btg") or kind == "witness"
+        if not S.in_quantifier(f, idx, us, need_amount, ht) or begin > len(script):
+            return None
+        want = impl("c04_sighash_f_spec %s %s %s %s %d %s %s %d" % (coin, kind, a[3], a[4], idx, hx(script[begin:]), a[8], ht))
+        if want == "refused":
+            return None if out == "err ScriptError" else "a hash type without the fork-id bit is not refused (got %s)" % out[:40]
+        if out != want:
+            return ("the message handed to signature verification is not the consensus one for the script code that starts after the last executed "
+                    "OP_CODESEPARATOR (position %d of %d, hash type 0x%x, %s)" % (begin, len(script), ht, kind))
     if k == "c04_find_and_delete":
         script, sigs = parse_bytes(a[1]), parse_sigs(a[2])
         if out != "ok " + hx(S.script_code_for(script, sigs)):
@@ -344,6 +377,9 @@ def neighbours(op, rng):
     if a[0] == "c04_sighash_f":
         for ht in (1, 2, 3, 0x41, 0x81, 0xC3):
             yield " ".join(a[:8] + [str(ht)])
+    if a[0] == "c04_sighash_fb":
+        for ht in (1, 2, 3, 0x41, 0x81, 0xC3):
+            yield " ".join(a[:9] + [str(ht)])
 
 
 def short_write(script: bytes) -> int:
@@ -465,6 +501,19 @@ def gen(ctx, emit):
                                 e_f(coin, "legacy", f, us, idx, code_with(nsep, embed), [SIG], ht, spec=sp)
                         if ht in (1, 3, 0x41, 0x83) and nsep == 2:
                             e_f(coin, "witness", f, us, idx, code_with(nsep, True), [SIG], ht, spec=True)
+    # ---- the closures called with begin_code_hash != 0: script code = what follows the last executed OP_CODESEPARATOR (which may
+    # itself hold further separators, embedded signatures on either side, or be empty when the separator is the last opcode)
+    fb_scripts = [code_with(1, False), code_with(2, False), code_with(2, True), S.push_data(SIG) + b"\x75\xab" + S.push_data(SIG) + b"\x75" + P2PKH,
+                  b"\x51\x63\xab\x68" + P2PKH + b"\xab", b"\xab\xab\xab" + P2PKH, P2PKH + b"\xab", S.push_data(SIG2) + b"\xab" + S.push_data(SIG) + b"\xab\xac"]
+    for coin in COINS:
+        for si, script in enumerate(fb_scripts):
+            begins = [i + 1 for i in range(len(script)) if script[i] == 0xAB and S.is_complete(script[:i])]
+            for begin in begins:
+                for hi, ht in enumerate(range(256) if ctx.thorough else (1, 2, 3, 0x41, 0x42, 0x43, 0x81, 0x83, 0xC1, 0xC2, 0xC3, 0, 0x1F, 0x60, (37 * si + 11 * begin) % 256)):
+                    for kind in ("legacy", "witness"):
+                        for idx in ((1, 2, 3) if ctx.thorough else ((hi + si + begin) % 3 + 1,)):
+                            emit("c04_sighash_fb %s %s %s %s %d %s %d %s %d" % (coin, kind, show_fields(f0), show_us(us0), idx, hx(script), begin,
+                                                                                show_sigs([SIG] if (hi + begin) % 3 else [SIG, SIG2]), ht))
     # ---- the other shapes: every hash-type byte, one position / separator combination each (quick)
     if not ctx.thorough:
         for si, f in enumerate(SHAPES[1:]):
@@ -602,6 +651,10 @@ def gen(ctx, emit):
                 us = [(9000, spk), (8000, P2PKH)]
                 trace = "legacy:%d:%s:%s,legacy:%d:%s:%s" % (ht, hx(spk), show_sigs([sigA]), ht, hx(spk), show_sigs([sigB]))
                 emit("c04_checksol %s %s %s 0 %s 0,1" % (coin, show_fields(f), show_us(us), trace), "two-checksigs-embedded-sigs")
+    # ---- custom scripts: executed / unexecuted OP_CODESEPARATORs around the checks, embedded signatures on either side, CHECKMULTISIG
+    # with several hash types, all 256 hash-type bytes on a legacy and a witness script per class (expected requests written down)
+    from props import c04x_gen
+    c04x_gen.gen_custom(ctx, emit)
     # ---- seeded random transactions
     LCH = [0, 0, 1, 2, 25, 0xFC, 0xFD, 0x100]
     OPS = [b"\x51", b"\xab", b"\xac", b"\x76", b"\x00", b"\x01\xab", b"\x02\xab\xab", b"\x4c\x01\xab", b"\x14" + b"\x33" * 20, S.push_data(SIG), b"\x4f", b"\xae"]
